@@ -305,19 +305,22 @@ Proof. exact producer_gzip_roundtrip. Qed.
 Print Assumptions C05_producer_gzip_roundtrip.
 
 (* ================================================================== 3b. Message.timestamp_type (common.py:660).
-   The codec neither writes nor reads the field (Model.RespView: py_encode_message ignores it, py_decoded leaves the
-   default 0).  Hence: the identity holds, field included, exactly when the field is 0 ... *)
+   The sixth field of Message is documented "always 0" (common.py:650); the codec neither writes nor reads it
+   (Model.RespView: py_encode_message ignores it, py_decoded leaves the default 0) and no afkak code sets it.
+   [wf_pymessage] = that documented invariant, a well-formedness conjunct of "identity on messages": with it the
+   identity holds for the whole Python object, field included ... *)
 Theorem C05_timestamp_type_roundtrip : forall d orc now pm bs off,
-  pm_tstype pm = 0 -> plain (pm_msg pm) = true ->
+  wf_pymessage pm = true -> plain (pm_msg pm) = true ->
   py_encode_message now pm = Ok bs ->
   py_decoded_set (dec_message (dec_set d orc) orc (Some bs) off)
   = [(off, mk_pymessage (wire_view now (pm_msg pm)) (pm_tstype pm))].
 Proof. exact c05_tstype_roundtrip. Qed.
 Print Assumptions C05_timestamp_type_roundtrip.
 
-(* ... and fails otherwise: Message(1, 0, b"k", b"v", 5, timestamp_type=1) comes back with timestamp_type 0 *)
+(* ... and the conjunct is needed (documentation, not a defect of the documented type):
+   Message(1, 0, b"k", b"v", 5, timestamp_type=1) comes back with timestamp_type 0 *)
 Theorem C05_timestamp_type_refuted :
-  plain (pm_msg tstype_witness) = true /\
+  wf_pymessage tstype_witness = false /\ plain (pm_msg tstype_witness) = true /\
   exists bs, py_encode_message 0 tstype_witness = Ok bs /\
              py_decoded_set (dec_message (dec_set 1 marker_oracle) marker_oracle (Some bs) 7)
              = [(7, mk_pymessage (pm_msg tstype_witness) 0)] /\
@@ -325,8 +328,8 @@ Theorem C05_timestamp_type_refuted :
 Proof. exact c05_tstype_refuted. Qed.
 Print Assumptions C05_timestamp_type_refuted.
 
-(* against the protocol (attributes bit 3 of a format-1 message is its timestamp type, [k_tstype]): a LogAppendTime
-   message decodes with timestamp_type 0 ... *)
+(* towards the protocol (attributes bit 3 of a format-1 message is its timestamp type, [k_tstype]): afkak does not
+   surface it as timestamp_type - a LogAppendTime message decodes with the documented timestamp_type 0 ... *)
 Theorem C05_timestamp_type_spec_refuted :
   wf_kmsg tstype_log_append = true /\ k_tstype tstype_log_append = 1 /\
   map (fun op => pm_tstype (snd op))
@@ -440,3 +443,8 @@ Proof. split; vm_compute; reflexivity. Qed.
 Example ex_compacted_offsets :
   map fst (fst (dec_set 2 marker_oracle (enc_ktree ex_gz ex_compacted))) = [102; 103; 107].
 Proof. vm_compute. reflexivity. Qed.
+
+Example ex_pymessage_wf :
+  wf_pymessage (mk_pymessage (mkMessage 1 8 (Some [107]) None (Some 1500000000000)) 0) = true /\
+  plain (mkMessage 1 8 (Some [107]) None (Some 1500000000000)) = true.
+Proof. split; reflexivity. Qed.
